@@ -177,10 +177,22 @@ def main():
         h += ['g', 'chaincheck', 'a 41 4000 2', 'g', 'chaincheck', 'chaindrop', 'g', 'end']
         p = run([sh, '-a', '0', '-v', '0'], stdin=('\n'.join(h) + '\n').encode(), timeout=1800)
         return job, h, p
+    def combwork(job):
+        w, dep, demand = job
+        h = (['demand'] if demand else []) + ['a 0 64 2', 'root 0 0', 'comb %d %d' % (w, dep)]
+        for k in range(1, 30): h += ['a %d %d 2' % (k, 16 + 8 * (k % 9))]
+        h += ['g', 'combcheck', 'a 41 4000 2', 'g', 'combcheck', 'combdrop', 'g', 'end']
+        p = run([sh, '-a', '0', '-v', '0'], stdin=('\n'.join(h) + '\n').encode(), timeout=1800)
+        return ('comb',) + job, h, p
+    combjobs = [(w, dep, dm) for w, dep in ((ctx.q(3000, 34000), 600), (500, 3000)) for dm in (True, False)]
     cjobs = [(n, sz, lw, dm) for n in (ctx.q(300000, 1500000), 90000) for sz, lw in ((24, 1), (40, 1), (24, 0)) for dm in (True, False)]
-    for job, h, p in pmap(cwork, cjobs):
+    for job, h, p in pmap(cwork, cjobs) + pmap(combwork, combjobs):
         out = p.out.decode(errors='replace')
         if re.search(r'OK steps=', out) and p.rc == 0: nchain += 1; continue
+        if job[0] == 'comb':
+            vm = re.search(r'VIOLATION (\S+) step=(\d+)(.*)', out)
+            ctx.violation('comb:%s' % (vm.group(1) if vm else 'fault:%s' % (fault_text(p) or p.cause)), 'comb of %d chains of %d blocks, %s collector: %s' % (job[1], job[2], 'demand' if job[3] else 'automatic', vm.group(0) if vm else p.cause + ' ' + p.err[-300:].decode(errors='replace')), files={'history.txt': '\n'.join(h) + '\n'})
+            continue
         vm = re.search(r'VIOLATION (\S+) step=(\d+)(.*)', out)
         key = ('chain:%s' % vm.group(1) if vm else 'chain:fault:%s' % (fault_text(p) or p.cause)) + (':link-in-last-word' if job[2] else ':link-in-first-word')
         ctx.violation(key, 'chain of %d blocks of %d bytes linked through the %s word, %s collector: %s' % (job[0], job[1], 'last' if job[2] else 'first', 'demand' if job[3] else 'automatic', vm.group(0) if vm else p.cause + ' ' + (p.err[-300:]).decode(errors='replace')), files={'history.txt': '\n'.join(h) + '\n'})
